@@ -31,4 +31,7 @@ func sortStrings(s []string) {
 	}
 }
 
-func hasBadStr(n interface{ Pos() gotokenPos; End() gotokenPos }) string { return oracleHasBad(n) }
+func hasBadStr(n interface {
+	Pos() gotokenPos
+	End() gotokenPos
+}) string { return oracleHasBad(n) }
